@@ -1,7 +1,7 @@
 (* C06 - Undisclosed claims stay confidential in the issuer JWT and in presentations. *)
 From Coq Require Import List String Ascii Bool Arith.
 Import ListNotations.
-Require Import SDJ.Json SDJ.Wire SDJ.Model2 SDJ.Out SDJ.Restore2 SDJ.Split SDJ.SplitM SDJ.Verify SDJ.HolderProofs.
+Require Import SDJ.Json SDJ.Wire SDJ.Model2 SDJ.Out SDJ.Restore2 SDJ.Split SDJ.SplitM SDJ.Verify SDJ.HolderProofs SDJ.ATree SDJ.T2c SDJ.T2h SDJ.T1e SDJ.T1h SDJ.T1j SDJ.Issuer1 SDJ.Issuer2 SDJ.T1k SDJ.C06Proofs.
 Local Open Scope string_scope.
 
 (* no disclosure of a redacted disclosable claim, nor of any claim whose path lies below it, is selected
@@ -19,3 +19,23 @@ Theorem C06_selected_is_filter :
   forall h, selected h = map (fun p => d_str (snd p)) (filter (fun p => negb (withheld (h_paths h) (h_redacted h) (fst p))) (h_paths h)).
 Proof. exact selected_spec. Qed.
 Print Assumptions C06_selected_is_filter.
+
+(* issuer side: every string (member name or string value) of the blinded payload of ANY conformant annotated
+   tree is a reserved name, an embedded digest, or a name / value lying outside every hidden node. Hence no name
+   and no value of a selectively disclosable claim - nor anything inside it - occurs in the signed payload. *)
+Theorem C06_payload_atoms :
+  forall (H : string -> string) (enc : list json -> string) (t : atree), wf H enc t ->
+    forall a, In a (atoms (blind H enc t)) ->
+      a = "_sd" \/ a = "..." \/ In a (alldigs H enc t) \/ In a (vatoms t).
+Proof. exact blind_atoms. Qed.
+Print Assumptions C06_payload_atoms.
+
+(* ... and the payload the issuer fold produces is such a blinded tree, whose full projection is the claims *)
+Theorem C06_issuer_payload_is_blind :
+  forall E C paths tks salts t',
+    jwf C -> split_paths paths = Some tks ->
+    T1j.mark_fold (ie_hash E) (ie_enc E) Issuer2.parse_index Issuer2.parse_usize (ie_pos E) (embed C) tks salts = Some t' ->
+    exists ds, Issuer2.issue_fold E C paths salts = Ok (blind (ie_hash E) (ie_enc E) t', ds) /\
+               wf (ie_hash E) (ie_enc E) t' /\ proj (ie_hash E) (ie_enc E) Rall t' = C.
+Proof. exact issuer2_payload_blind. Qed.
+Print Assumptions C06_issuer_payload_is_blind.
